@@ -143,8 +143,10 @@ def tag(case, impl):
 def oracle(case, impl, judge):
     if impl.startswith("CRASH"):
         return "harness crashed: " + impl
-    if "!stuck" in impl or impl.endswith("unfinished"):
+    if "!stuck" in impl:
         return "a logical thread blocked outside the instrumented points: " + impl[-200:]
+    if impl.endswith("unfinished"):
+        return None  # step cap reached (e.g. a restart waiting for an actor nobody drains): inconclusive, compared with the model only
     if judge is not None:
         return None if judge.startswith("ok") else judge
     import re
